@@ -38,6 +38,7 @@ pipe_destroy(void *arg)
 {
 	nni_pipe *p = arg;
 
+	NNI_VERIF_TRACE("pipe", p, "destroy", NULL);
 #ifdef NNG_ENABLE_STATS
 	// The reaper unregisters the statistics, but the endpoint may still
 	// have been starting the pipe at that time and register them
@@ -56,6 +57,7 @@ pipe_reap(void *arg)
 {
 	nni_pipe *p = arg;
 
+	NNI_VERIF_TRACE("pipe", p, "reap", NULL);
 	p->p_proto_ops.pipe_close(p->p_proto_data);
 
 	// Close the underlying transport.
@@ -69,6 +71,7 @@ pipe_reap(void *arg)
 	if (p->p_id != 0) {
 		nni_id_remove(&pipes, p->p_id);
 	}
+	NNI_VERIF_TRACE("pipe", p, "unreg", NULL);
 	nni_mtx_unlock(&pipes_lk);
 
 #ifdef NNG_ENABLE_STATS
@@ -77,6 +80,7 @@ pipe_reap(void *arg)
 
 	p->p_proto_ops.pipe_stop(p->p_proto_data);
 	p->p_tran_ops.p_stop(p->p_tran_data);
+	NNI_VERIF_TRACE("pipe", p, "stopped", NULL);
 
 	nni_pipe_remove(p);
 
@@ -97,6 +101,11 @@ nni_pipe_find(nni_pipe **pp, uint32_t id)
 		nni_refcnt_hold(&p->p_refcnt);
 		*pp = p;
 	}
+#ifdef NNG_VERIF
+	if ((p == NULL) || nni_atomic_get_bool(&p->p_closed)) {
+		NNI_VERIF_TRACE("pipe", p, "find", "\"id\":%u", (unsigned) id);
+	}
+#endif
 	nni_mtx_unlock(&pipes_lk);
 	return (p == NULL ? NNG_ENOENT : NNG_OK);
 }
@@ -138,10 +147,12 @@ nni_pipe_send(nni_pipe *p, nni_aio *aio)
 void
 nni_pipe_close(nni_pipe *p)
 {
+	NNI_VERIF_TRACE("pipe", p, "close_try", NULL);
 	if (nni_atomic_swap_bool(&p->p_closed, true)) {
 		return; // We already did a close.
 	}
 
+	NNI_VERIF_TRACE("pipe", p, "close", NULL);
 	nni_reap(&pipe_reap_list, p);
 }
 
